@@ -162,3 +162,80 @@ def generate(prop, seed, n):
         case, opts, strict = GEN[prop](r)
         out.append({"id": i, "case": case, "opts": opts, "strict": strict})
     return out
+
+
+# ------------------------------------------------------------------ BitArray (C13) and npdataclass (C18) share the "misc" family
+def gen_c13(r):
+    b = r.choice([1, 2, 4, 8, 16, 32])
+    per = 64 // b
+    n = r.choice([0, 1, 2, per - 1, per, per + 1, 2 * per, 2 * per + 1, 3 * per + 2, r.randint(0, 3 * per + 5), r.randint(0, 200)])
+    top = (1 << b) - 1
+    pat = r.choice(["rand", "rand", "max", "alt"])
+
+    def dig(i):
+        v = r.randint(0, top) if pat == "rand" else top if pat == "max" else (top if i % 2 else 0)
+        return [(v >> 16) & 0xFFFF, v & 0xFFFF] if b == 32 else v
+    a = [dig(i) for i in range(n)]
+    k = r.choice(["bit_roundtrip", "bit_get", "bit_getlist", "bit_getlist", "bit_window", "bit_window", "bit_len"])
+    opts = {"indt": r.choice(["u1", "u2", "u4", "u8", "i1", "i2", "i4", "i8"]), "npidx": r.random() < 0.3, "listkind": r.choice(["list", "array"]), "again": r.random() < 0.5}
+    if b >= 8 and opts["indt"] in ("i1",) or (b == 16 and opts["indt"] in ("i2",)) or (b == 32 and opts["indt"] in ("i4",)):
+        opts["indt"] = "u8"
+    if k == "bit_get":
+        return [k, b, a, r.randint(0, max(n - 1, 0))], opts, False
+    if k == "bit_getlist":
+        m = r.choice(["rand", "run", "run", "desc"])
+        if n == 0:
+            l = []
+        elif m == "rand":
+            l = [r.randint(0, n - 1) for _ in range(r.randint(0, 12))]
+        elif m == "run":
+            s0 = r.randint(0, n - 1)
+            l = list(range(s0, min(n, s0 + r.randint(1, per + 3))))
+        else:
+            l = list(range(n - 1, max(-1, n - 1 - r.randint(1, 9)), -1))
+        return [k, b, a, l], opts, False
+    if k == "bit_window":
+        return [k, b, a, r.randint(1, per)], opts, False
+    return [k, b, a], opts, False
+
+
+def gen_c18(r):
+    nf = r.randint(1, 3)
+    names = ["a", "b", "c"][:nf]
+    kinds = [r.choice(["1d", "1d", "2d"]) for _ in names]
+    ws = [r.randint(1, 3) for _ in names]
+
+    def tab(n, base):
+        return [names, [["1d", [base + 10 * f + i for i in range(n)]] if kd == "1d" else ["2d", [[base + 100 * f + 10 * i + j for j in range(w)] for i in range(n)]]
+                        for f, (kd, w) in enumerate(zip(kinds, ws))]]
+    n = r.randint(0, 7)
+    t = tab(n, 0)
+    k = r.choice(["dc_new", "dc_len", "dc_getitem", "dc_getitem", "dc_getitem", "dc_iter", "dc_concat", "dc_concat", "dc_eq", "dc_astype", "vl_concat", "dc_bad"])
+    if k == "dc_getitem":
+        from .drivers_ragged import rnd_slice
+        sel = r.choice([["int", r.randint(-n - 1, n)], rnd_slice(r, n), ["list", [r.randint(-n, n - 1) for _ in range(r.randint(0, 5))] if n else []],
+                        ["mask", [r.randint(0, 1) for _ in range(n)]]])
+        return [k, t, sel], {}, False
+    if k == "dc_concat":
+        ts = [tab(r.randint(0, 5), 1000 * i) for i in range(r.randint(1, 4))]
+        return [k, ts], {}, False
+    if k == "dc_eq":
+        t2 = tab(n if r.random() < 0.7 else r.randint(0, 7), 0 if r.random() < 0.6 else 7)
+        return [k, t, t2], {}, False
+    if k == "dc_astype":
+        want = r.sample(names, r.randint(1, nf))
+        return [k, t, want], {}, False
+    if k == "vl_concat":
+        ms = []
+        for i in range(r.randint(1, 4)):
+            w, m = r.randint(1, 4), r.randint(1, 3)
+            ms.append([[100 * i + 10 * a_ + j + 1 for j in range(w)] for a_ in range(m)])
+        return [k, ms], {}, False
+    if k == "dc_bad" and nf >= 2:
+        t2 = tab(n + r.choice([1, 2]), 0)
+        return ["dc_new", [names, [t2[1][0]] + t[1][1:]]], {}, False
+    return [k if k != "dc_bad" else "dc_new", t], {}, False
+
+
+GEN["C13"] = gen_c13
+GEN["C18"] = gen_c18
